@@ -22,6 +22,7 @@ class Item:
     raw: Any
     calibrated: bool = False  # value went through float arithmetic (tolerance applies)
     scale: float = 0.0  # magnitude of the operands of that arithmetic (absolute tolerance = a few eps * scale)
+    unjudged: bool = False  # decoded more than once on this path: value not judged
     start: int = 0
     width: int = 0
 
@@ -177,7 +178,14 @@ class Env:
 
     def add(self, it: Item):
         if it.name in self.items:
-            raise RefUnspecified("same parameter name decoded twice in one packet")
+            # The same parameter decoded twice on one path: the packet mapping can hold only one entry.  Which value
+            # "the document prescribes" for it is unspecified, so the entry keeps its first position and is marked as
+            # not judged; everything else (other parameters, the cursor) still is.
+            old = self.items[it.name]
+            it.unjudged = True
+            self.order[self.order.index(old)] = it
+            self.items[it.name] = it
+            return
         self.items[it.name] = it
         self.order.append(it)
 
